@@ -860,7 +860,9 @@ fn synthetic_case(rng: &mut Rng, em: &mut Emitter) {
                 tags.push("syn-move:in-range".into());
             } else if !valid {
                 // malformed mapping: out-of-range index / empty or overlong ranges
-                let m = match rng.below(4) {
+                let m = match rng.below(6) {
+                    4 => (d, i, (0, dl.max(1)), (il + 2, il + 5)),
+                    5 => (d, i, (0, 1), (il + 1, il)),
                     0 => (d, lay.inss.len() + rng.below(2) as usize, (0, 1), (0, 1)),
                     1 => (lay.dels.len() + 1, i, (0, 1), (0, 1)),
                     2 => (d, i, (2, 2), (0, il + 3)),
